@@ -315,6 +315,92 @@ def _iteration_worker(rank, n, max_mut):
     return count, viol[:20]
 
 
+def vm_iterations():
+    """The VM's iteration instructions (DISC/DNEXT over lights, groups, locations; DISCM/DNEXTM over the members of
+    a group or location; both directions) on the real LightSet, with one change of the population applied after the
+    k-th step, for every k: the walk ends, never raises, and visits every name that stays throughout exactly once."""
+    from bardolph.vm.machine import Registers
+    from bardolph.vm.vm_codes import Operand
+    from bardolph.vm.vm_discover import VmDiscover
+    base = (('a', 'g', 'p'), ('b', 'g', 'q'), ('c', 'h', 'q'), ('d', 'g', 'p'))
+    changes = [('none',), ('move', 'a', 'h', 'q'), ('move', 'b', 'h', 'p'), ('move', 'c', 'g', 'p'),
+               ('vanish', ('a',)), ('vanish', ('b',)), ('vanish', ('a', 'b', 'd')), ('vanish', ('c',)),
+               ('vanish', ('a', 'b', 'c', 'd')), ('appear', 'bb', 'g', 'q'), ('appear', 'e', 'k', 'r')]
+    walks = [('all', Operand.LIGHT, None), ('sets', Operand.GROUP, None), ('sets', Operand.LOCATION, None),
+             ('members', Operand.GROUP, 'g'), ('members', Operand.GROUP, 'h'), ('members', Operand.LOCATION, 'q'),
+             ('members', Operand.LOCATION, 'p')]
+    n = 0
+    viol = []
+    for kind, operand, owner in walks:
+        for forward in (True, False):
+            for change in changes:
+                for k in range(0, 5):
+                    n += 1
+                    sysm = Sys(('a', 'b', 'c', 'd'))
+                    devs = [simnet.SimDevice(sysm.w.net, nm, g, l) for nm, g, l in base]
+                    sysm.w.devices[:] = devs
+                    simnet.SimLan.current_devices = sysm.w.devices
+                    sysm.ls.discover()
+                    reg = Registers()
+                    reg.operand = operand
+                    reg.disc_forward = forward
+                    vd = VmDiscover(None, reg)
+
+                    def names_now():
+                        ls = sysm.ls
+                        if kind == 'all':
+                            return list(ls.get_light_names())
+                        if kind == 'sets':
+                            return list(ls.get_group_names() if operand is Operand.GROUP else ls.get_location_names())
+                        got = ls.get_group_lights(owner) if operand is Operand.GROUP else ls.get_location_lights(owner)
+                        return list(got or [])
+                    before = names_now()
+                    visited = []
+                    what = (kind, operand.name, owner, 'forward' if forward else 'backward', change, 'after step %d' % k)
+                    try:
+                        if kind == 'members':
+                            vd.discm(owner)
+                        else:
+                            vd.disc()
+                        steps = 0
+                        while reg.result is not Operand.NULL and reg.result is not None and steps < 20:
+                            visited.append(reg.result)
+                            steps += 1
+                            if steps == k + 1 or (k == 0 and steps == 1):
+                                pass
+                            if steps == k:
+                                if change[0] == 'move':
+                                    d = next(x for x in sysm.w.devices if x.label == change[1])
+                                    d.group, d.location = change[2], change[3]
+                                    sysm.ls.discover()
+                                elif change[0] == 'vanish':
+                                    sysm.w.devices[:] = [x for x in sysm.w.devices if x.label not in change[1]]
+                                    sysm.ls.discover()
+                                    sysm.vt.now += MAX_AGE + 1
+                                    for x in sysm.w.devices:
+                                        pass
+                                    sysm.ls.discover()          # the remaining lights are seen again, the others are too old
+                                    sysm.ls._garbage_collect()
+                                elif change[0] == 'appear':
+                                    sysm.w.devices.append(simnet.SimDevice(sysm.w.net, change[1], change[2], change[3]))
+                                    sysm.ls.discover()
+                            if kind == 'members':
+                                vd.dnextm(owner, visited[-1])
+                            else:
+                                vd.dnext(visited[-1])
+                        after = names_now()
+                        stay = [x for x in before if x in after]
+                        if steps >= 20:
+                            viol.append(('vm-iteration-does-not-terminate', what + (visited,)))
+                        elif any(visited.count(x) != 1 for x in stay) and change[0] != 'move':
+                            viol.append(('vm-iteration-misses-or-repeats-a-remaining-name', what + (before, after, visited)))
+                        elif len(visited) != len(set(visited)):
+                            viol.append(('vm-iteration-visits-a-name-twice', what + (visited,)))
+                    except Exception as ex:
+                        viol.append(('vm-iteration-raises', what + ('%s: %s' % (type(ex).__name__, ex),)))
+    return n, viol
+
+
 def run(tier, seed):
     rep = Report()
     if tier == 'quick':
@@ -336,6 +422,12 @@ def run(tier, seed):
     for kind, (cnt, hist, detail) in sorted(viol.items()):
         rep.violation(kind, '%s (%d transitions): after %r: %s' % (kind, cnt, hist, detail),
                       {'history': hist, 'detail': detail, 'part': 'directory'})
+    n_vm, vviol = vm_iterations()
+    seen_vm = set()
+    for kind, wit in vviol:
+        if kind not in seen_vm:
+            seen_vm.add(kind)
+            rep.violation(kind, '%s: %r' % (kind, wit), {'case': [str(x) for x in wit], 'part': 'vm-iteration'})
     world.World(())
     n_probe, pviol = sorted_list_probes()
     ires = par.run(_iteration_worker, (2 if tier == 'quick' else 3,))
@@ -360,6 +452,7 @@ def run(tier, seed):
         'bfs_depth': stats['depth'],
         'names': 'a,b to a fixpoint + a,b,c to depth 4' if tier == 'quick' else 'a,b,c to a fixpoint',
         'sortedlist_probes': n_probe,
+        'vm_iteration_walks': n_vm,
         'iteration_systems': n_iter,
         'samples': [[('discover', (('g', 'p'), ('g', 'q'), None)), ('advance', 150.0), ('discover', (None, ('h', 'q'), ('g', 'p'))), ('expire',)]],
     }
